@@ -136,7 +136,7 @@ PROPS.update({
     "C15": {
         "ties": ["Responder", "OAuth2", "Auth", "Otp", "Totp", "Sms"],
         "streams": {"quick": [{"name": "c15", "n": 20000}, MACH_QUICK],
-                    "thorough": [{"name": "c15", "n": 300000, "seeds": 4}, MACH_THOROUGH]},
+                    "thorough": [{"name": "c15", "n": 150000, "seeds": 4}, MACH_THOROUGH]},
         "level": "proof",
         "assumptions": ["the browser side is a specification written from the WHATWG URL standard, restricted to what decides same-origin vs not, conservative (anything not clearly same-site counts as off-site); it cannot be cross-checked against a browser in this sandbox",
                         "net/url parsing is a universally quantified bit in the theorem (relative or not); path.Clean is modelled (PathClean.lean) and diffed against the real http.Redirect on every accepted value",
